@@ -512,10 +512,25 @@ def check_limit_consistency(ctx, rep, f):
         if a[0] == "bin" and a[1] in (">", ">=", "<", "<="):
             l, r = (a[2], a[3]) if a[1] in (">", ">=") else (a[3], a[2])
             if any(isinstance(t, tuple) and t and t[0] == "field" and str(t[1]).endswith("absolutePos") for t in subterms(l)):
-                lims.append(expand_locals(ctx, f, r))
+                lims.append((expand_locals(ctx, f, l), expand_locals(ctx, f, r)))
     P = Prover(Facts(), orthant=False)
-    want = P.poly(inline_getters(ctx, clamp[0]))
-    got = [(l, P.poly(inline_getters(ctx, l))) for l in lims]
+
+    def nz(p_):
+        return None if p_ is None else {k: v for k, v in p_.items() if v != 0}
+
+    def limit_of(l, r):
+        """`pos + rest > r` is the test `pos > r - rest`: the limit is r minus whatever stands next to the bound position on the left"""
+        pl, pr = P.poly(inline_getters(ctx, l)), P.poly(inline_getters(ctx, r))
+        if pl is None or pr is None:
+            return None
+        rest = {k: v for k, v in pl.items() if not any("absolutePos" in repr(a) for a in k)}
+        if len(rest) == len(pl):
+            return None
+        return nz(P._padd(pr, rest, -1))
+    want = nz(P.poly(inline_getters(ctx, clamp[0])))
+    got = [(("bin", "-", r, l) if P.poly(l) is not None and len(P.poly(l)) > 1 else r, limit_of(l, r)) for l, r in lims]
+    got = [(l, p_) for l, p_ in got if p_ is not None]
+    lims = [l for l, _p in got]
     what = "descent limit(s) %s, clamp limit %s" % ([pretty(l)[:40] for l in lims], pretty(clamp[0])[:40])
     if want is None or not got:
         rep.unknown("LC", loops[0], f, what, "limits not recognised")
